@@ -117,7 +117,44 @@ fn roundtrip<V: Serialize + DeserializeOwned + PartialEq + Clone>(ctx: &mut Ctx,
     ctx.obs("deserialized == original", cl, 0, 0, 0, Exp::Is(true), || back == *v);
     ctx.obs("original == deserialized", cl, 0, 0, 0, Exp::Is(true), || *v == back);
     ctx.obs("re-serialized bytes identical", cl, 0, 0, 0, Exp::Is(true), || bincode::serialize(&back).map(|b| b == bytes).unwrap_or(false));
+    // the other entry points of bincode: a reader (whole buffer, and one that hands out a single byte per read call),
+    // a writer, and the size computation
+    for short in [false, true] {
+        let name: &'static str = if short { "bincode::deserialize_from(one byte per read)" } else { "bincode::deserialize_from(reader)" };
+        let r = ctx.total(name, cl, 0, bytes.len() as u64, 0, || {
+            if short {
+                bincode::deserialize_from::<_, V>(OneByte(&bytes))
+            } else {
+                bincode::deserialize_from::<_, V>(std::io::Cursor::new(&bytes))
+            }
+        });
+        match r {
+            Some(Ok(x)) => {
+                ctx.obs("value read from a reader == original", cl, short as u128, 0, 0, Exp::Is(true), || x == *v);
+            }
+            Some(Err(e)) => ctx.violation(name, cl, "deserialize_from(reader over serialize(value))".into(), "Ok(value)".into(), format!("Err({e})")),
+            None => {}
+        }
+    }
+    ctx.obs("serialize_into(writer) writes the same bytes", cl, 0, 0, 0, Exp::Is(true), || {
+        let mut buf = Vec::new();
+        bincode::serialize_into(&mut buf, v).is_ok() && buf == bytes
+    });
+    ctx.obs("serialized_size == number of bytes", cl, 0, 0, 0, Exp::Is(Some(bytes.len() as u64)), || bincode::serialized_size(v).ok());
     Some(back)
+}
+
+/// a reader that returns at most one byte per call (the short-read answer of the environment)
+struct OneByte<'a>(&'a [u8]);
+impl<'a> std::io::Read for OneByte<'a> {
+    fn read(&mut self, buf: &mut [u8]) -> std::io::Result<usize> {
+        if self.0.is_empty() || buf.is_empty() {
+            return Ok(0);
+        }
+        buf[0] = self.0[0];
+        self.0 = &self.0[1..];
+        Ok(1)
+    }
 }
 
 /// C19, copies: clone_from into values that held something else must yield a value equal to the source (and, where a
@@ -191,7 +228,7 @@ fn run_tree<X: Tree>(ctx: &mut Ctx, prop: &str, gen: &Gen, vm: &str) {
             let back = ctx.total("deserialize(serialize(..))", &cl, 0, 0, 0, || bincode::deserialize::<X>(&bincode::serialize(&t).unwrap()).unwrap());
             for (which, tt) in [Some(&t), back.as_ref()].into_iter().enumerate() {
                 let Some(tt) = tt else { continue };
-                let cls = if which == 0 { cl.clone() } else { format!("{cl} deserialized").trim().to_string() };
+                let cls = if which == 0 { cl.clone() } else { sub_class(&cl, "deserialized") };
                 // the deserialized copy: every symbol, a thinner set of positions on long inputs
                 let step = if which == 1 && n > 3000 { 7 } else { 1 };
                 for &c in &syms {
@@ -217,7 +254,7 @@ fn run_tree<X: Tree>(ctx: &mut Ctx, prop: &str, gen: &Gen, vm: &str) {
             c10_tree(ctx, &t, &r, &o);
             // the same on copies: a deserialized one, and clone_from into trees that held a smaller / a larger alphabet
             let mut o2 = o.clone();
-            o2.class = format!("{cl} copy").trim().to_string();
+            o2.class = sub_class(&cl, "copy");
             if let Some(d) = ctx.total("deserialize(serialize(..))", &o2.class, 0, 0, 0, || derived(&t, 2, X::default)) {
                 c10_tree(ctx, &d, &r, &o2);
             }
@@ -234,6 +271,10 @@ fn run_tree<X: Tree>(ctx: &mut Ctx, prop: &str, gen: &Gen, vm: &str) {
             }
         }
         "C11" => {
+            if n == 0 {
+                // the derived Default: a value no constructor builds
+                let _ = roundtrip(ctx, &X::default(), "default");
+            }
             let Some(back) = roundtrip(ctx, &t, &cl) else { return };
             let d1 = ctx.digest_of(|c| sweep_tree(c, &t, &r, &o));
             let d2 = ctx.digest_of(|c| sweep_tree(c, &back, &r, &o));
@@ -245,8 +286,8 @@ fn run_tree<X: Tree>(ctx: &mut Ctx, prop: &str, gen: &Gen, vm: &str) {
                 }
             }
             // the original has answered queries by now: its round trip must still compare equal (and the earlier copy, queried too, equals it)
-            let _ = roundtrip(ctx, &t, &format!("{cl} after-queries").trim().to_string());
-            ctx.obs("deserialized (queried) == original (queried)", &format!("{cl} after-queries").trim().to_string(), 0, 0, 0, Exp::Is(true), || back == t);
+            let _ = roundtrip(ctx, &t, &sub_class(&cl, "after-queries"));
+            ctx.obs("deserialized (queried) == original (queried)", &sub_class(&cl, "after-queries"), 0, 0, 0, Exp::Is(true), || back == t);
             ctx.count("round_trips");
         }
         "C19" => {
@@ -367,14 +408,26 @@ fn c10_pair<R: PartialEq + std::fmt::Debug + std::hash::Hash>(
             if let Ok(u) = trap(unchecked) {
                 ctx.violation(
                     name,
-                    &format!("{cl} checked-none").trim().to_string(),
+                    &sub_class(cl, "checked-none"),
                     format!("{name}({})", fmt_args(name, a0, a1, a2)),
                     "the value of the checked method - which answers None although the precondition holds".into(),
                     format!("{u:?}"),
                 );
             }
         }
-        Err(_) => ctx.count("checked_gave_no_value_on_valid_arguments"),
+        Err(msg) => {
+            // the checked method panics although the precondition holds; if the unchecked one answers, they disagree
+            ctx.count("checked_gave_no_value_on_valid_arguments");
+            if let Ok(u) = trap(unchecked) {
+                ctx.violation(
+                    name,
+                    &sub_class(cl, "checked-panic"),
+                    format!("{name}({})", fmt_args(name, a0, a1, a2)),
+                    "the value of the checked method - which panics although the precondition holds".into(),
+                    format!("{u:?} (checked: PANIC: {msg})"),
+                );
+            }
+        }
     }
 }
 
@@ -533,6 +586,9 @@ fn run_quad<X: QuadRS>(ctx: &mut Ctx, prop: &str, gen: &Gen) {
             }
         }
         "C11" => {
+            if q.is_empty() {
+                let _ = roundtrip(ctx, &X::default(), "default");
+            }
             let Some(back) = roundtrip(ctx, &t, "") else { return };
             let d1 = ctx.digest_of(|c| sweep_quadrs(c, &t, &r, dense, false, ""));
             let d2 = ctx.digest_of(|c| sweep_quadrs(c, &back, &r, dense, false, ""));
@@ -675,6 +731,9 @@ fn run_bin<X: BinRS>(ctx: &mut Ctx, prop: &str, gen: &BitGen) {
             }
         }
         "C11" => {
+            if bits.is_empty() {
+                let _ = roundtrip(ctx, &X::default(), "default");
+            }
             let Some(back) = roundtrip(ctx, &t, "") else { return };
             let d1 = ctx.digest_of(|c| sweep_binrs(c, &t, &r, dense, false, ""));
             let d2 = ctx.digest_of(|c| sweep_binrs(c, &back, &r, dense, false, ""));
@@ -768,6 +827,9 @@ fn run_darr<const S0: bool>(ctx: &mut Ctx, prop: &str, gen: &BitGen) {
             }
         }
         "C11" => {
+            if bits.is_empty() {
+                let _ = roundtrip(ctx, &DArray::<S0>::default(), "default");
+            }
             let Some(back) = roundtrip(ctx, &t, "") else { return };
             let d1 = ctx.digest_of(|c| quiet(|| sweep_darray(c, &t, &r, dense, false, "", &starts)));
             let d2 = ctx.digest_of(|c| quiet(|| sweep_darray(c, &back, &r, dense, false, "", &starts)));
@@ -976,7 +1038,7 @@ fn tree_subjects(v: &mut Vec<Subject>, prop: &str, th: bool) {
             for &al in &aliases {
                 let huff = al.starts_with('H');
                 for e in ["u8", "u64", "u128"] {
-                    for vm in if huff { ["hpow4", "hmaxy"] } else { ["wide", "maxy"] } {
+                    for vm in if huff { ["hpow4", "hmaxy", "hid"] } else { ["wide", "maxy", "id"] } {
                         push(al, e, g.clone(), vm);
                     }
                 }
@@ -1015,7 +1077,12 @@ fn tree_subjects(v: &mut Vec<Subject>, prop: &str, th: bool) {
     for &n in &lens {
         for &al in &aliases {
             let huff = al.starts_with('H');
-            for (sigma, pat) in [(64u32, Pat::Periodic), (64, Pat::Runs(128)), (64, Pat::Const(48)), (64, Pat::TwoRuns), (64, Pat::Blocks), (5, Pat::Periodic), (256, Pat::DenseThenSparse), (64, Pat::Rare(2)), (17, Pat::Runs(2048))] {
+            let mut shapes = vec![(64u32, Pat::Periodic), (64, Pat::Runs(128)), (64, Pat::Const(48)), (64, Pat::TwoRuns), (64, Pat::Blocks), (5, Pat::Periodic), (256, Pat::DenseThenSparse), (64, Pat::Rare(2)), (17, Pat::Runs(2048))];
+            if prop == "C09" {
+                // one- and two-level trees (alphabets of at most 4 / 16 symbols)
+                shapes.extend([(4u32, Pat::Periodic), (3, Pat::Runs(128)), (2, Pat::Rare(1)), (16, Pat::Periodic)]);
+            }
+            for (sigma, pat) in shapes {
                 let e = if prop == "C09" && (n + sigma as usize) % 5 == 0 { "u128" } else if sigma <= 64 && (n + sigma as usize) % 2 == 0 { "u8" } else { "u64" };
                 let vm = if huff { "hid" } else if e == "u64" { "spread" } else { "id" };
                 // Const(48): sigma 64 keeps the symbol (Const is taken modulo sigma)
@@ -1123,6 +1190,10 @@ fn enumerate(args: &Args) -> Vec<Subject> {
             let huff = al.starts_with('H');
             for e in ["u8", "u64", "u128"] {
                 v.push(Subject::Pairs { alias: al.into(), elem: e.into(), k: 3, l: 4, vmap: if huff { "hpow4".into() } else { "pow4".into() } });
+                if !huff {
+                    // values that are multiples of 4 of each other: trees whose levels are prefixes of each other's
+                    v.push(Subject::Pairs { alias: al.into(), elem: e.into(), k: 4, l: 3, vmap: "quad4".into() });
+                }
             }
             for g in tiny_all(3, if th { 6 } else { 5 }) {
                 v.push(Subject::Widths { alias: al.into(), gen: g.clone(), vmap: if huff { "hholes".into() } else { "holes".into() }, base: 8 });
